@@ -13,6 +13,7 @@ use std::time::Duration;
 use futures_util::stream::StreamExt;
 use hickory_net::dnssec::DnssecDnsHandle;
 use hickory_net::xfer::DnsHandle;
+use hickory_net::{DnsError, NetError};
 use hickory_proto::dnssec::rdata::{DNSSECRData, DNSKEY, DS, RRSIG};
 use hickory_proto::dnssec::{Algorithm, DigestType, DnssecSigner, Proof};
 use hickory_proto::op::{DnsRequestOptions, Message, Query, ResponseCode};
@@ -53,6 +54,9 @@ enum Fault {
     InjectForeignDs,
     /// reverse the order of the records of the answer section (order is not signed)
     ReorderAnswer,
+    /// replace the answer by forged data signed by the operator of the sibling zone sib.tld.
+    /// with that zone's own, validly chained key (signer name sib.tld.)
+    InjectSiblingSigned,
 }
 
 #[derive(Serialize, Deserialize, Clone, Copy, Debug, PartialEq, Eq, PartialOrd, Ord)]
@@ -115,6 +119,10 @@ fn all_queries() -> Names {
             (q("www.badalg.tld.", RecordType::A), "insecure"),
             (q("www.unsigned.", RecordType::A), "insecure"),
             (q("leaf.tld.", RecordType::DNSKEY), "secure"),
+            // names that do not exist in a signed zone: the genuine outcome is a validated denial
+            (q("nope.leaf.tld.", RecordType::A), "secure-nx"),
+            (q("nope.tld.", RecordType::A), "secure-nx"),
+            (q("deep.nope.leaf.tld.", RecordType::A), "secure-nx"),
         ],
     }
 }
@@ -179,6 +187,10 @@ fn build_world(p: &Plan) -> (World, Vec<KeyRef>) {
         a("ns.island.tld.", 6),
         ns("badalg.tld.", "ns.badalg.tld."),
         a("ns.badalg.tld.", 7),
+        // a second, legitimately signed child: whoever runs it holds a key with a valid chain
+        ns("sib.tld.", "ns.sib.tld."),
+        a("ns.sib.tld.", 8),
+        ds_for(&KeyRef::ed(4), &n("sib.tld.")),
     ];
     if p.mixed_ds {
         tld_recs.push(Record::from_rdata(n("leaf.tld."), 3600, RData::DNSSEC(DNSSECRData::DS(DS::new(4712, Algorithm::Unknown(201), DigestType::SHA256, vec![9u8; 32])))));
@@ -211,7 +223,10 @@ fn build_world(p: &Plan) -> (World, Vec<KeyRef>) {
     let mut island = mk_unsigned("island.tld.", 6);
     island.keys = vec![island_key];
 
-    let zones = [root, tld, leaf, plain, island, badalg, unsigned].iter().map(build_zone).collect();
+    let mut sib = mk_unsigned("sib.tld.", 8);
+    sib.keys = vec![KeyRef::ed(4)];
+
+    let zones = [root, tld, leaf, plain, island, badalg, unsigned, sib].iter().map(build_zone).collect();
     (World { zones }, vec![root_key])
 }
 
@@ -278,6 +293,29 @@ fn apply_fault(world: &World, q: &Query, orig: &Message, f: Fault) -> Option<Opt
                 _ => return None,
             };
             m.answers.extend(attacker_sign(&q.name, q.query_type, vec![data], 300, &zone));
+        }
+        Fault::InjectSiblingSigned => {
+            let sibz = n("sib.tld.");
+            if sibz.zone_of(&q.name) {
+                return None;
+            }
+            m.answers.retain(|r| !(r.name == q.name && (r.record_type() == q.query_type || matches!(&r.data, RData::DNSSEC(DNSSECRData::RRSIG(s)) if s.input().type_covered == q.query_type))));
+            let data = match q.query_type {
+                RecordType::A => RData::A(A::new(198, 51, 100, 78)),
+                RecordType::TXT => RData::TXT(TXT::new(vec!["evil-sibling".to_string()])),
+                _ => return None,
+            };
+            let key = KeyRef::ed(4).load();
+            let dnskey = DNSKEY::from_key(&key.to_public_key().ok()?);
+            let signer = DnssecSigner::new(dnskey, key, sibz, Duration::from_secs(86_400));
+            let mut set = RecordSet::new(q.name.clone(), q.query_type, 0);
+            set.insert(Record::from_rdata(q.name.clone(), 300, data), 0);
+            m.answers.extend(set.records_without_rrsigs().cloned());
+            if let Ok(sig) = RRSIG::from_rrset(&set, DNSClass::IN, OffsetDateTime::now_utc(), &signer) {
+                m.answers.push(Record::from_rdata(q.name.clone(), 300, RData::DNSSEC(DNSSECRData::RRSIG(sig))));
+            }
+            m.metadata.response_code = hickory_proto::op::ResponseCode::NoError;
+            m.authorities.clear();
         }
         Fault::AttackerDnskeys => {
             if q.query_type != RecordType::DNSKEY {
@@ -352,7 +390,14 @@ fn apply_fault(world: &World, q: &Query, orig: &Message, f: Fault) -> Option<Opt
                 }
             }
             if !any {
-                return None;
+                // a negative response: replace it by an unsigned positive answer for the question
+                let q = m.queries.first()?.clone();
+                if q.query_type != RecordType::A {
+                    return None;
+                }
+                m.answers.clear();
+                m.answers.push(Record::from_rdata(q.name.clone(), 300, RData::A(A::new(198, 51, 100, 77))));
+                m.metadata.response_code = hickory_proto::op::ResponseCode::NoError;
             }
             m.answers.retain(|r| r.record_type() != RecordType::RRSIG);
             m.authorities.clear();
@@ -369,7 +414,7 @@ fn apply_fault(world: &World, q: &Query, orig: &Message, f: Fault) -> Option<Opt
 pub struct C07Part;
 
 fn gen_fault(r: &mut Rng) -> FaultAt {
-    let (class, fault) = match r.below(16) {
+    let (class, fault) = match r.below(18) {
         0 => (Class::Main, Fault::Alter(r.below(4) as u8)),
         1 => (*r.pick(&[Class::Main, Class::Dnskey, Class::Ds]), Fault::Remove(r.below(8) as u8)),
         2 => (Class::Main, Fault::InjectUnsigned),
@@ -383,6 +428,7 @@ fn gen_fault(r: &mut Rng) -> FaultAt {
         10..=11 => (Class::NsProbe, Fault::ForgeNs),
         12..=13 => (Class::Main, Fault::StripAndAlter),
         14 => (Class::Dnskey, Fault::Alter(0)),
+        16 | 17 => (Class::Main, Fault::InjectSiblingSigned),
         _ => (*r.pick(&[Class::Ds, Class::Ds, Class::Main, Class::Dnskey]), *r.pick(&[Fault::Alter(0), Fault::InjectForeignDs, Fault::ReorderAnswer])),
     };
     let occurrence = if matches!(fault, Fault::ForgeNs) || r.chance(1, 3) { 255 } else { r.below(3) as u8 };
@@ -542,6 +588,7 @@ fn fault_code(f: Fault) -> u64 {
         Fault::StripAndAlter => 12,
         Fault::InjectForeignDs => 13,
         Fault::ReorderAnswer => 14,
+        Fault::InjectSiblingSigned => 15,
     }
 }
 
@@ -728,7 +775,7 @@ async fn scenario(p: Plan) {
                                 exec::count("probe.optout_span_downgrade_inherent");
                                 continue;
                             }
-                            if owner_secure && *expect == "secure" {
+                            if owner_secure && expect.starts_with("secure") {
                                 let shape = if faulty { fault_shape.clone() } else { format!("fault-free:{nxs}:{}", query.query_type) };
                                 let inv = if faulty { "C07.downgrade" } else { "C07.genuine-not-secure" };
                                 if exec::violate(inv, &shape, format!("{qdesc}: record {} {} {} returned with proof {:?} although its zone is signed with a complete chain (faults: {applied_now:?})", rec.name, rec.record_type(), rec.data, rec.proof)) {
@@ -755,7 +802,7 @@ async fn scenario(p: Plan) {
                         }
                     }
                 }
-                if !faulty && recs.is_empty() {
+                if !faulty && recs.is_empty() && *expect != "secure-nx" {
                     if exec::violate("C07.genuine-not-secure", &format!("fault-free:{nxs}:{}:empty-{expect}", query.query_type), format!("{qdesc}: fault-free lookup returned no answer records (rcode {:?})", resp.metadata.response_code)) {
                         return;
                     }
@@ -763,7 +810,15 @@ async fn scenario(p: Plan) {
             }
             Some(Err(e)) => {
                 exec::count("probe.lookup_error");
-                if !faulty {
+                if !faulty && *expect == "secure-nx" {
+                    // the validated denial of a name that does not exist
+                    let proof = match &e {
+                        NetError::Dns(DnsError::Nsec { proof, .. }) => Some(*proof),
+                        _ => None,
+                    };
+                    // (whether the server's denial is complete is C08 / C09's subject)
+                    exec::count(&format!("probe.genuine_denial.{proof:?}"));
+                } else if !faulty {
                     let kind = format!("{e}").split(':').next().unwrap_or("").chars().take(40).collect::<String>();
                     if exec::violate("C07.genuine-not-secure", &format!("fault-free:{nxs}:{}:error-{expect}", query.query_type), format!("{qdesc}: fault-free lookup failed: {e} [{kind}]")) {
                         return;
